@@ -73,6 +73,28 @@ def check(rep, tier, seed):
                          stdin_hex=open(m["path"], "rb").read().hex()[:4000], observed=g[:300], expected=want[:300],
                          detail="%s disagrees with numpy's astype(float64) on a file written by numpy" % who,
                          failing_input=(who == "implementation"))
+    # reader: axes longer than 65535 entries (shape entries are 64-bit numbers), hand-built as numpy lays files out
+    import struct as _s2
+    def mk_npy(descr, shape, payload, major=1):
+        dct = ("{'descr': '%s', 'fortran_order': False, 'shape': (%s), }" % (descr, "".join("%d, " % n for n in shape).rstrip() if len(shape) > 1 else "%d," % shape[0])).encode()
+        lw = 2 if major == 1 else 4
+        hdr = dct + b" " * ((-(6 + 2 + lw + len(dct) + 1)) % 64) + b"\n"
+        return b"\x93NUMPY" + bytes([major, 0]) + (_s2.pack("<H", len(hdr)) if major == 1 else _s2.pack("<I", len(hdr))) + hdr + payload
+    f8bits = lambda x: "b%016x" % _s2.unpack("<Q", _s2.pack("<d", float(x)))[0]
+    longs = []
+    for n in (65535, 65536, 65537, 70000):
+        vals_ = [(7 * i) % 251 for i in range(n)]
+        longs.append((mk_npy("|u1", [n], bytes(vals_)), [n], vals_))
+    vals_ = [(i % 2000) - 1000 for i in range(140002)]
+    longs.append((mk_npy(">i2", [2, 70001], b"".join(_s2.pack(">h", v) for v in vals_), major=2), [2, 70001], vals_))
+    vals_ = [i / 8.0 for i in range(65537)]
+    longs.append((mk_npy("<f4", [65537, 1], b"".join(_s2.pack("<f", v) for v in vals_), major=3), [65537, 1], vals_))
+    for (b, shp, vals_), o in zip(longs, run_impl(["npyr %s" % b.hex() for b, _, _ in longs])):
+        rep.count("npy-reader-long-axis", "shape %s" % fmt(shp), True)
+        want = "OK %s %s" % (fmt(shp), ",".join(f8bits(v) for v in vals_))          # every value is exactly representable
+        if o != want:
+            rep.fail(kind="property-oracle", cls="npy-reader:long-axis", case="npy file of shape %s" % fmt(shp), stdin_hex=b.hex()[:4000], observed=o[:200], expected=want[:200],
+                     detail="an npy file with an axis longer than 65535 entries must be read like any other")
     # writer at the limit of the 2-byte header length field: spectra with thousands of axes of length 1 (numpy itself
     # stops at 32/64 axes, so these are compared with the model only): bytes below the limit, a refusal - with nothing
     # written - above it
